@@ -190,7 +190,11 @@ Definition C20_timedwait_not_early : Prop :=
     let '(res, ts) := uv_cond_timedwait_model add_wrap timeout hr wait in
     res = Some UV_ETIMEDOUT -> hr + timeout <= now_ret ts.
 
-(* refuted on the current code (DESIGN item 6): timeout = UINT64_MAX at hr = 5 s + 7 ns *)
+(* The statement above is about the wrapping addition [add_wrap] the code used before the /repo
+   commit "fix: uv_cond_timedwait timed out at once for timeouts near UINT64_MAX"; it is refuted
+   (DESIGN item 6): timeout = UINT64_MAX at hr = 5 s + 7 ns.  The code as it is now uses the
+   saturating addition [add_sat]: see C20_timedwait_fixed_not_early below, which is the clause in
+   full; the correspondence check runs the model in mode "timedfix" against the library. *)
 Theorem C20_timedwait_wraps_refuted : ~ C20_timedwait_not_early.
 Proof. exact timedwait_wraps_refuted. Qed.
 Print Assumptions C20_timedwait_wraps_refuted.
@@ -212,7 +216,7 @@ Theorem C20_timedwait_wrap_deadline_in_past :
 Proof. exact timedwait_wrap_deadline_in_past. Qed.
 Print Assumptions C20_timedwait_wrap_deadline_in_past.
 
-(* the repaired variant (notes/C20_fix_timedwait.diff: saturating add): the full clause,
+(* the code as it is now (saturating add, notes/C20_fix_timedwait.diff applied): the full clause,
    for every timeout, as long as the clock is below 2^64-1 ns when the wait returns *)
 Theorem C20_timedwait_fixed_not_early :
   forall (wait now_ret : Z * Z -> Z),
